@@ -4,7 +4,7 @@
    constructors) exactly.  Oracle answers (brentq / quadratic root) come with the case and their
    defining equation is re-evaluated here in exact arithmetic. *)
 From Coq Require Import List Arith NArith ZArith QArith Qabs Bool.
-From TLV Require Import Base.Shape Base.Tensor Model.Structure Corr.Common.
+From TLV Require Import Base.Shape Base.Tensor Model.Structure Model.StructureQ Corr.Common.
 Import ListNotations.
 Local Open Scope nat_scope.
 
@@ -27,7 +27,14 @@ Inductive op :=
 (* control flow of the CP drivers w.r.t. normalisation; the decisions are the implementation's (answer tape) *)
 | DNorm (d : driver) (nf tol_set : bool) (ik : init_kind) (n_modes : nat) (fixed : list nat) (n_iter : nat)
         (decisions : list (bool * bool)) (obs_sweeps : bool)
-| DNorm2 (d : driver2) (nf tol_set : bool) (n_iter : nat) (decisions : list bool).
+| DNorm2 (d : driver2) (nf tol_set : bool) (n_iter : nat) (decisions : list bool)
+(* partial_tucker on a list of modes; tucker with fixed factors (init = a Tucker tensor with factor m of shape I_m x rank_m) *)
+| DPartialTucker (shape rank modes : list nat)
+| DTuckerFixed (shape rank fixed : list nat)
+(* canonical form evaluated exactly on the implementation's outputs (floats as exact rationals) *)
+| QOrth (k : nat) (M : list Q) (tol : Q)
+| QTucker (shape ranks : list nat) (X core : list Q) (fs : list (list Q)) (tol_orth tol_proj : Q)
+| QCpNorm (R : nat) (w : option (list Q)) (fs scales : list (list Q)) (tol : Q) (wout : list Q) (fout : list (list Q)).
 
 Definition is_frac (s : rspec) : bool := match s with RFrac _ => true | _ => false end.
 Definition frac_of (s : rspec) : Q := match s with RFrac q => q | _ => 0%Q end.
@@ -71,6 +78,17 @@ Definition run (o : op) : res (list (list nat)) :=
       let m := length (modes_list d n_modes fixed) in
       Ok [[if obs_sweeps then (if m =? 0 then 0 else length (updates t) / m) else 0];
           [if ends_normalised t then 1 else 0]; [if any_normalise t then 1 else 0]]
+  | DPartialTucker shape rank modes => partial_tucker shape rank modes
+  | DTuckerFixed shape rank fixed => tucker_fixed shape rank fixed
+  | QOrth k M tol => Ok [[if orth_ok k M tol then 1 else 0]]
+  | QTucker shape ranks X core fs t1 t2 => Ok [[if tucker_ok shape ranks X core fs t1 t2 then 1 else 0]]
+  | QCpNorm R w fs scales tol wout fout =>
+      match cp_normalize_q R w fs scales tol with
+      | Some (wm, fm) =>
+          Ok [[if q_list_close tol tol wm wout && (length fm =? length fout) &&
+                  forallb (fun p => q_list_close tol tol (fst p) (snd p)) (combine fm fout) then 1 else 0]]
+      | None => Ok [[2]]                    (* the oracle tape does not solve its equation: harness problem, not a verdict *)
+      end
   | DNorm2 d nf tol_set n decisions =>
       let t := trace_run2 d nf tol_set n decisions in
       Ok [[length (updates t)]; [if ends_normalised t then 1 else 0]; [if any_normalise t then 1 else 0]]
